@@ -83,7 +83,8 @@ func JS(ops []Op) string {
 		case "delall":
 			b.WriteString("for (var k__ in _.bindings) { delete _.bindings[k__]; }\n")
 		case "mutprops":
-			b.WriteString("(function(p) { function m(o) { if (o && typeof o === 'object') { if (o.length !== undefined) { for (var i = 0; i < o.length; i++) { if (o[i] && typeof o[i] === 'object') { m(o[i]); } else { o[i] = 'mut'; } } } else { for (var k in o) { if (o[k] && typeof o[k] === 'object') { m(o[k]); } } o.mut = 1; } } } m(p); })(_.props);\n")
+			// overwrite every scalar reachable from the properties with a string (a value every container type takes)
+			b.WriteString("(function(p) { function m(o) { if (o && typeof o === 'object') { if (o.length !== undefined) { for (var i = 0; i < o.length; i++) { if (o[i] && typeof o[i] === 'object') { m(o[i]); } else { o[i] = 'mut'; } } } else { for (var k in o) { if (o[k] && typeof o[k] === 'object') { m(o[k]); } else if (k !== 'ctx') { o[k] = 'mut'; } } } } } m(p); })(_.props);\n")
 		case "fresh":
 			fmt.Fprintf(&b, "return %s;\n", js(o.V))
 		case "retnull":
@@ -104,6 +105,10 @@ func JS(ops []Op) string {
 			b.WriteString("throw {toString: function() { throw new Error('boom'); }};\n")
 		case "retcyclic":
 			b.WriteString("var cyc__ = []; cyc__.push(cyc__); return cyc__;\n")
+		case "retcyclicobj":
+			// bindings that contain themselves: every recursive reader of the state (the matcher, the JSON encoder) would
+			// never come back
+			b.WriteString("var c__ = {}; c__.self = c__; _.bindings[\"?x\"] = c__; _.bindings[\"k\"] = c__; return _.bindings;\n")
 		default:
 			panic("unknown op " + o.Name)
 		}
@@ -169,7 +174,7 @@ func Native(ops []Op, partial bool) func(context.Context, match.Bindings, core.S
 				}
 			case "throw", "emitbad", "retgetter", "throwobj":
 				return fail(errBoom)
-			case "retscalar", "retcyclic":
+			case "retscalar", "retcyclic", "retcyclicobj":
 				return fail(errors.New("42 (int64) isn't Bindings (native)"))
 			case "loop":
 				select {
@@ -429,7 +434,7 @@ func Classify(err error) string {
 		return "thrown"
 	case strings.Contains(s, "timeout"):
 		return "timeout"
-	case strings.Contains(s, "isn't Bindings"):
+	case strings.Contains(s, "isn't Bindings"), strings.Contains(s, "value is cyclic"), strings.Contains(s, "nested too deeply"):
 		return "badreturn"
 	case strings.Contains(s, "too many bindingss"):
 		return "toomany"
